@@ -1,4 +1,6 @@
-CONSTANTS NTests = 2 Deviations = {"NoCatchWarnings"} PreChoices = {"none", "both", "sys"}
+CONSTANTS NTests = 2 Deviations = {"NoCatchWarnings"} PreChoices = {"none"}
+CONSTANTS OptUniverse = {"gc", "G", "coverage", "profile", "buffer", "warnings", "D", "x"}
+CONSTANTS PreDebugChoices = {{}} GChoices = {{"DEBUG_UNCOLLECTABLE"}} V4Choices = {TRUE}
 SPECIFICATION Spec
 INVARIANT Restored
 INVARIANT HooksRestored
